@@ -213,6 +213,7 @@ def run(idx: ProgramIndex, rep: Report, tier: str):
     composite_prior_terms(idx, rep)
     setters_convert_numbers(idx, rep)
     inverse_follows_transform(idx, rep)
+    expand_keeps_transform(idx, rep)
 
 
 # ---- C17-1 / C17-2 -------------------------------------------------------------------------------------------------
@@ -1046,3 +1047,40 @@ def _requires_none(test: ast.AST, positive: bool, name: str) -> bool:
         if isinstance(test.ops[0], ast.IsNot):
             return not positive
     return False
+
+
+# ---- C17-11 --------------------------------------------------------------------------------------------------------
+def expand_keeps_transform(idx: ProgramIndex, rep: Report):
+    """A prior built with transform=t evaluates log p(t(x)).  expand(batch_shape) may only change the batch shape: the priors implement
+    it by re-building themselves from their (expanded) parameters, and a re-build that does not pass the transform on scores another
+    density (NormalPrior(0, 1, transform=torch.log).expand([2]) differs by 1.7 - 4 nats at x = [0.5, 2.0]).  Module._pyro_sample_from_prior
+    expands every registered prior, so pyro scores a different density than the marginal log likelihood."""
+    rep.rule("C17-11", "expand of a prior whose constructor takes a transform re-builds it with that transform (and as the same prior class): only the batch shape changes")
+    P = idx.cls("gpytorch.priors.prior", "Prior")
+    n = 0
+    for cls in sorted(idx.subclasses(P), key=lambda c: (c.module.name, c.qualname)):
+        ex = cls.methods.get("expand")
+        init = cls.lookup("__init__")
+        if ex is None or init is None or cls is P:
+            continue
+        takes_transform = "transform" in [a.arg for a in init.node.args.args + init.node.args.kwonlyargs]
+        if not takes_transform:
+            continue
+        n += 1
+        rets = [r.value for r in ast.walk(ex.node) if isinstance(r, ast.Return) and r.value is not None]
+        probs = []
+        for r in rets:
+            if not isinstance(r, ast.Call):
+                probs.append("returns `%s`" % src(r)[:40])
+                continue
+            built = (chain(r.func) or "").split(".")[-1]
+            same_class = built in (cls.name, "__class__") or chain(r.func) in ("type(self)",)
+            if not same_class:
+                probs.append("returns a `%s`, not a %s: the result is no longer a gpytorch prior (no transform, no buffers)" % (built, cls.name))
+                continue
+            kw = {k.arg: k.value for k in r.keywords}
+            passes = "transform" in kw and isinstance(kw["transform"], ast.Attribute) and kw["transform"].attr in ("_transform", "transform")
+            if not passes:
+                probs.append("re-builds %s without transform=self._transform: the expanded prior scores log p(x) instead of log p(t(x))" % cls.name)
+        rep.add("C17-11", "%s:%s.expand" % (cls.module.name, cls.qualname), ex.where, not probs and bool(rets), "re-built with its transform" if not probs else "; ".join(sorted(set(probs))), {})
+    rep.floor("C17-11", "priors with a transform and an expand", n, 6)
